@@ -23,7 +23,7 @@ ANCHORS = ["raggedarray/base.py::RaggedBase.ravel", "raggedarray/base.py::Ragged
            "raggedarray/indexablearray.py::IndexableArray.__setitem__", "raggedarray/base.py::RaggedBase.size"]
 FLOOR_TAGS = ["class:A", "class:B", "plan:everything", "plan:random", "inserted-read-on-lazy", "inserted:meta", "inserted:repr", "inserted:tolist", "inserted:sel", "inserted:sum0",
               "inserted:ell", "inserted:row", "inserted:maskidx", "class:buffer", "class:runlength", "class:table", "variant:2d", "variant:ragged", "variant:1d", "layout:contiguous", "layout:strided", "layout:matrix-column", "layout:reversed"]
-FLOOR_MONITORS = ["c10:pair", "purity-tap", "global-state"]
+FLOOR_MONITORS = ["c10:pair", "purity-tap", "global-state", "kept-results"]
 N_RANDOM = {"quick": 3000, "thorough": 100000}
 GLOBAL_STATE_MONITOR = True     # reads must not leak into numpy's print options / error state either
 
@@ -482,6 +482,14 @@ def directed():
         steps = [{"op": "init", "v": "a0", "rows": [[1, 2], [3, 4, 5], [6, 7]]}, {"op": "obs", "u": "a0", "what": "rowscol", "arg": [rows_.copy(), 1]},
                  {"op": "sel", "v": "a1", "u": "a0", "rs": slice(None, None, -1), "cs": None, "has_cs": False}, {"op": "obs", "u": "a1", "what": "rowscol", "arg": [rows_.copy(), -1]}]
         yield {"steps": steps, "hazard": False, "plans": [{"kind": "everything", "reads": {"0": [["a0", "rowscol", [rows_.copy(), 0]]], "2": [["a1", "rowscol", [rows_.copy(), 0]]]}}]}
+    # a result the caller holds (a padded matrix, a converted copy, column totals, ...) across a write to the array and a second request of the same kind
+    for rows_ in ([[1, 2, 3], [4], [5, 6]], [[(3 * i + j) % 17 + 1 for j in range(1 + (i * 7) % 41)] for i in range(40)], [[i % 5 + 1] for i in range(1600)]):
+        for what in sorted(prog.KEPT):
+            arg = 0 if what == "getcol" else None
+            steps = [{"op": "init", "v": "a0", "rows": rows_}, {"op": "obs", "u": "a0", "what": what, "arg": arg}, {"op": "ravelwrite", "u": "a0", "k": 1, "val": 777},
+                     {"op": "obs", "u": "a0", "what": what, "arg": arg}, {"op": "rowwrite", "u": "a0", "i": 0, "j": 0, "val": 555}, {"op": "obs", "u": "a0", "what": what, "arg": arg},
+                     {"op": "obs", "u": "a0", "what": "tolist", "arg": None}]
+            yield {"steps": steps, "hazard": False, "plans": [{"kind": "everything", "reads": {"1": [["a0", what, arg]], "3": [["a0", "padded", None]]}}, {"kind": "random", "reads": {"2": [["a0", "meta", None]]}}]}
     for _ in range(120):
         yield gen_buffer_case(rng, "quick")
     for _ in range(400):
